@@ -37,6 +37,12 @@ _NOT_FOUND_RE = re.compile(
 _LINK_TAGS = ("reference", "footnote_reference", "citation_reference", "target")
 
 
+# one cause, one signature: `{eval-rst}` content is parsed by docutils' rST parser as a complete top-level document
+# (state machine with match_titles=True: section titles and transitions are accepted) and its children are then
+# spliced into whatever node is current, so a section / transition lands under a block quote, list item ...
+SIG_RST_SPLICE = "structure:eval-rst-splice:section-or-transition-under-container"
+
+
 def _tag(node):
     return getattr(node, "tagname", None) or type(node).__name__
 
@@ -67,6 +73,77 @@ def _from_rst(*nodes_):
     marks those nodes, see `_install_origin_marks`).  Such failures get their own signature family: the tags
     involved are arbitrary there (the rST snippet is a document of its own, numbered separately)."""
     return any(getattr(n, "_c03_origin", None) == "eval-rst" for n in nodes_ if n is not None)
+
+
+def _origin(node):
+    """Observation mark left by the driver's hooks on the node object: "eval-rst", "directive:<name>",
+    "myst-xref" (reference built by MyST's Sphinx post-transform from a Markdown link's pending_xref),
+    "sphinx-xref" (reference built by Sphinx' ReferencesResolver from a role's pending_xref), or None."""
+    return getattr(node, "_c03_origin", None)
+
+
+def _note_kind(node):
+    """Numbering kind of a footnote / footnote_reference / citation(_reference), read off the `auto` attribute:
+    auto (auto=1: every MyST `[^label]`), symbol (auto='*'), manual (no `auto`: rST `[1]_` only)."""
+    try:
+        a = node.get("auto")
+    except Exception:
+        a = None
+    if a == 1 or a == "1":
+        return "auto"
+    if a == "*":
+        return "symbol"
+    return "manual"
+
+
+def _in_contents(node):
+    """Inside the topic docutils' Contents transform builds (entries are filtered deep copies of section titles)."""
+    n = getattr(node, "parent", None)
+    while n is not None:
+        try:
+            if _tag(n) == "topic" and "contents" in (n.get("classes") or ()):
+                return True
+        except Exception:
+            pass
+        n = getattr(n, "parent", None)
+    return False
+
+
+def _producer(node):
+    """The construct that produced a node carrying a refid / backrefs (second-to-last signature component).
+
+    reference:           id_link (MyST `[text](#name)` / `<project:#name>`: render_link_anchor marks the node, the
+                         refid is written by ResolveAnchorIds), myst-xref, sphinx-xref, contents (entry of a docutils
+                         table of contents), eval-rst, directive:<name>, other
+    footnote_reference,
+    footnote, citation*: eval-rst, else auto | symbol | manual
+    target:              eval-rst, propagated (refid written by docutils PropagateTargets: ids and names moved to the
+                         next node), indirect (keeps its own names/ids)"""
+    t = _tag(node)
+    org = _origin(node)
+    if org == "eval-rst":
+        return "eval-rst"
+    if t == "reference":
+        try:
+            if node.get("id_link"):
+                return "id_link"
+        except Exception:
+            pass
+        if org in ("myst-xref", "sphinx-xref"):
+            return org
+        if _in_contents(node):
+            return "contents"
+        return org or "other"
+    if t in ("footnote_reference", "citation_reference", "footnote", "citation"):
+        return _note_kind(node)
+    if t == "target":
+        try:
+            if not node.get("ids") and not node.get("names"):
+                return "propagated"
+        except Exception:
+            pass
+        return "indirect"
+    return org or "other"
 
 
 def _is_math_anchor(node):
@@ -107,8 +184,11 @@ def _path(node, limit=12):
     return "/".join(reversed(tags))
 
 
-def check_tree(doc, stage, warnings_text=""):
-    """Independent well-formedness walker.  Returns a list of {"signature", "what", "detail"}."""
+def check_tree(doc, stage, warnings_text="", history=None):
+    """Independent well-formedness walker.  Returns a list of {"signature", "what", "detail"}.
+
+    `history`: optional zero-argument callable returning an `IdHistory` of the same case (asked only when a
+    dangling refid / backref is found at the full stage, to name the reason in the signature)."""
     fails = []
 
     def fail(sig, what, detail=None):
@@ -149,7 +229,7 @@ def check_tree(doc, stage, warnings_text=""):
             par = lister.get(id(e))        # the node that lists it (not the pointer, which clause 1 checks)
             ptag = _tag(par) if par is not None else "None"
             if ptag not in ("document", "section"):
-                fail("section:under-container:eval-rst" if _from_rst(e) else "section:under-" + ptag,
+                fail(SIG_RST_SPLICE if _from_rst(e) else "section:under-" + ptag,
                      f"section node directly under {ptag}", _path(e))
             if not e.children or _tag(e.children[0]) != "title":
                 fail("section:no-title" + (":eval-rst" if _from_rst(e) else ""), "section whose first child is " +
@@ -158,7 +238,7 @@ def check_tree(doc, stage, warnings_text=""):
             par = lister.get(id(e))
             ptag = _tag(par) if par is not None else "None"
             if ptag not in ("document", "section"):
-                fail("transition:inside-container" + (":eval-rst" if _from_rst(e) else ""),
+                fail(SIG_RST_SPLICE if _from_rst(e) else "transition:inside-container",
                      f"transition node directly under {ptag} (stage {stage})", _path(e))
 
     # ---- clause 4: identifiers unique
@@ -177,7 +257,11 @@ def check_tree(doc, stage, warnings_text=""):
                     kinds = "eval-rst"
                 else:
                     ma, mb = _is_math_anchor(o), _is_math_anchor(e)
-                    if ma != mb:
+                    if _in_contents(o) != _in_contents(e):
+                        kinds = "toc-copy"           # docutils Contents copied a title's inline that carries an id
+                    elif ma and mb:
+                        kinds = "math-label+math-label"
+                    elif ma != mb:
                         kinds = "math-label+other"
                     else:
                         kinds = "+".join(sorted((_tag(o), _tag(e))))
@@ -188,6 +272,24 @@ def check_tree(doc, stage, warnings_text=""):
 
     # ---- clause 5: internal links resolve
     warned = None
+    hist = [None, False]
+
+    def why_missing(i):
+        """Last signature component: why no node of the final tree carries id `i` (see `IdHistory.reason`)."""
+        if i in stripped_ids:
+            return "docinfo-stripped"
+        if stage == "parse":
+            return "never-existed"           # nothing ran between the renderer and this walk
+        if not hist[1]:
+            hist[1] = True
+            try:
+                hist[0] = history() if history is not None else None
+            except (KeyboardInterrupt, SystemExit, MemoryError):
+                raise
+            except BaseException:  # noqa: BLE001 - diagnosis only
+                hist[0] = None
+        return hist[0].reason(i) if hist[0] is not None else "untraced"
+
     for e in elements:
         t = _tag(e)
         if t in _LINK_TAGS and e.hasattr("refid"):
@@ -196,17 +298,16 @@ def check_tree(doc, stage, warnings_text=""):
                 if warned is None:
                     warned = _warned_targets(warnings_text)
                 if rid not in warned:
-                    ctxt = "eval-rst" if (_from_rst(e) or rid in rst_ids) else (
-                        "docinfo-stripped" if rid in stripped_ids else t)
-                    fail("refid:dangling:" + ctxt, f"{t} refid {rid!r} is not the id of any node and no "
-                         "'target not found' warning names it", {"refid": rid, "at": _path(e)})
+                    prod, why = _producer(e), why_missing(rid)
+                    fail(f"refid:dangling:{t}:{prod}:{why}", f"{t} ({prod}) refid {rid!r} is not the id of any "
+                         f"node ({why}) and no 'target not found' warning names it",
+                         {"refid": rid, "at": _path(e), "producer": prod, "why": why})
         if t in ("footnote", "citation"):
             for b in e.get("backrefs", []):
                 if b not in owner:
-                    ctxt = "eval-rst" if (_from_rst(e) or b in rst_ids) else (
-                        "docinfo-stripped" if b in stripped_ids else t)
-                    fail("backref:dangling:" + ctxt, f"{t} backref {b!r} is not the id of any node",
-                         {"backref": b, "at": _path(e)})
+                    prod, why = _producer(e), why_missing(b)
+                    fail(f"backref:dangling:{t}:{prod}:{why}", f"{t} ({prod}) backref {b!r} is not the id of any "
+                         f"node ({why})", {"backref": b, "at": _path(e), "producer": prod, "why": why})
 
     # ---- clause 6: table shape
     for e in elements:
@@ -293,7 +394,9 @@ def _exception_failure(exc, stage):
     site = None          # innermost frame inside the libraries: module.Class.function
     transform = None     # innermost docutils Transform whose apply() is on the stack: module.Class
     through_visit_transition = False
+    rst_transition = False
     through_promote_title = False
+    construct = ""       # producing construct, where a frame's locals tell it (appended to the signature)
     for fr in frames:
         mod = fr.f_globals.get("__name__", "") or ""
         code = fr.f_code
@@ -312,11 +415,27 @@ def _exception_failure(exc, stage):
         fn = code.co_filename.replace("\\", "/")
         if fn.endswith("docutils/transforms/misc.py") and code.co_name == "visit_transition":
             through_visit_transition = True
+            rst_transition = _from_rst(fr.f_locals.get("node"))
+        if fn.endswith("docutils/nodes.py") and code.co_name == "set_duplicate_name_id":
+            # the name being registered is mapped to an id that eval-rst's scratch document allocated (the outer
+            # registry then holds another node under that id): the failure belongs to the eval-rst splice
+            try:
+                docu = fr.f_locals.get("self")
+                old_id = fr.f_locals.get("old_id")
+                if old_id is not None and old_id in (getattr(docu, "_c03_rst_ids", None) or ()):
+                    construct = ":eval-rst-id"
+            except Exception:
+                pass
         if fn.endswith("docutils/transforms/frontmatter.py") and code.co_name == "promote_title":
             through_promote_title = True
     cls = type(exc).__name__
     tail = "".join(_tb.format_exception(type(exc), exc, exc.__traceback__))[-900:]
     if through_visit_transition and isinstance(exc, AssertionError):
+        if rst_transition:
+            return {"signature": SIG_RST_SPLICE,
+                    "what": f"{cls} in docutils Transitions.visit_transition: a transition produced by eval-rst inside "
+                            f"a container reached the transform pipeline (stage {stage})",
+                    "detail": {"exception": cls, "site": site, "traceback_tail": tail}}
         return {"signature": "transition:inside-container",
                 "what": f"{cls} in docutils Transitions.visit_transition: a transition that is not directly under "
                         f"the document or a section reached the transform pipeline (stage {stage})",
@@ -328,7 +447,7 @@ def _exception_failure(exc, stage):
                 "detail": {"exception": cls, "site": site, "traceback_tail": tail}}
     if site is None:
         raise HarnessError(f"exception outside the implementation: {exc!r}") from exc
-    return {"signature": f"exception:{cls}:{transform or site}",
+    return {"signature": f"exception:{cls}:{transform or site}{construct}",
             "what": f"uncaught {cls} at {site}" + (f" (transform {transform})" if transform else "") +
                     f": {str(exc)[:200]}",
             "detail": {"exception": cls, "site": site, "traceback_tail": tail}}
@@ -458,6 +577,129 @@ def _install_origin_marks():
     _MARKS_INSTALLED = True
 
 
+def _install_directive_marks():
+    """Observation only: nodes returned by a directive that carry no mark yet get `_c03_origin =
+    "directive:<name>"` (nested directives run first, so a node keeps the innermost directive's name).  Only used
+    as the producer of a reference that is neither an id_link nor built by a resolver."""
+    from myst_parser.mdit_to_docutils.base import DocutilsRenderer
+    orig = DocutilsRenderer.run_directive
+    if getattr(orig, "_c03_wrapped", False):
+        return
+
+    def run_directive(self, name, *a, **kw):
+        out = orig(self, name, *a, **kw)
+        try:
+            for top in out:
+                for n in top.findall():
+                    if getattr(n, "_c03_origin", None) is None:
+                        try:
+                            n._c03_origin = "directive:" + str(name)
+                        except Exception:
+                            pass
+        except Exception:
+            pass
+        return out
+
+    run_directive._c03_wrapped = True
+    run_directive.__wrapped__ = orig
+    DocutilsRenderer.run_directive = run_directive
+
+
+def _install_resolver_marks():
+    """Observation only (Sphinx): reference nodes that exist after `MystReferenceResolver.run` /
+    `ReferencesResolver.run` but did not before get `_c03_origin = "myst-xref"` / `"sphinx-xref"`."""
+    from docutils import nodes
+    from sphinx.transforms.post_transforms import ReferencesResolver
+    from myst_parser.sphinx_ext.myst_refs import MystReferenceResolver
+
+    def wrap(cls, label):
+        orig = cls.__dict__.get("run")
+        if orig is None or getattr(orig, "_c03_wrapped", False):
+            return
+
+        def run(self, **kw):
+            before = list(self.document.findall(nodes.reference))     # the list keeps the objects alive
+            known = {id(n) for n in before}
+            try:
+                return orig(self, **kw)
+            finally:
+                for n in self.document.findall(nodes.reference):
+                    if id(n) not in known and getattr(n, "_c03_origin", None) is None:
+                        try:
+                            n._c03_origin = label
+                        except Exception:
+                            pass
+
+        run._c03_wrapped = True
+        run.__wrapped__ = orig
+        cls.run = run
+
+    wrap(MystReferenceResolver, "myst-xref")
+    wrap(ReferencesResolver, "sphinx-xref")
+
+
+class IdHistory:
+    """Which ids the tree carried before every transform of the pipeline and at the end (diagnosis of a dangling
+    refid / backref; built by `trace_ids` on a second run of the same case, never on the run that is checked)."""
+
+    def __init__(self):
+        self.steps = []        # [transform about to run | None (final tree), document, {id: [carriers]}, {id(node)}]
+
+    def snap(self, name, document):
+        ids, alive = {}, set()
+        try:
+            for n in document.findall():
+                alive.add(id(n))
+                if hasattr(n, "get") and not isinstance(n, str):
+                    for i in n.get("ids", ()):
+                        ids.setdefault(i, []).append(n)
+        except Exception:
+            return
+        self.steps.append([name, document, ids, alive])
+
+    def close(self, doc):
+        self.steps = [s for s in self.steps if s[1] is doc]
+        self.snap(None, doc)
+
+    def reason(self, i):
+        """never-existed: no snapshot (the tree right after parsing included) has a node with this id;
+        node-removed:<T>: the nodes that carried it last left the tree while transform T ran;
+        id-dropped:<T>: a node that carried it last survived transform T, without the id;
+        untraced: the second run does not show the id missing."""
+        steps = self.steps
+        last = None
+        for k, s in enumerate(steps):
+            if i in s[2]:
+                last = k
+        if last is None:
+            return "never-existed"
+        if last == len(steps) - 1:
+            return "untraced"
+        alive = steps[last + 1][3]
+        kind = "id-dropped" if any(id(c) in alive for c in steps[last][2][i]) else "node-removed"
+        return f"{kind}:{steps[last][0]}"
+
+
+def trace_ids(case):
+    """Run the case once more with a recorder in front of every docutils Transform (observation only: the base
+    class constructor is wrapped for the duration of this run; the transformer's loop is untouched)."""
+    from docutils.transforms import Transform
+    h = IdHistory()
+    orig = Transform.__init__
+
+    def __init__(self, document, startnode=None):
+        orig(self, document, startnode=startnode)
+        h.snap(type(self).__name__, document)
+
+    Transform.__init__ = __init__
+    try:
+        doc, _ = produce(case)
+    finally:
+        Transform.__init__ = orig
+    h.close(doc)
+    return h
+
+
 def _install_docinfo_listener(drv):
     """Observation only: Sphinx's MetadataCollector removes the `docinfo` node (a leading field list) from every
     doctree at the `doctree-read` event.  Links into that removed subtree are left dangling by Sphinx itself; the
@@ -486,6 +728,7 @@ def produce(case):
     """Run the implementation on a normalised case.  Returns (document, warnings_text); raises what it raises."""
     from gen import c02_lib as L
     _install_origin_marks()
+    _install_directive_marks()
     text, mode, exts, kw = case["text"], case["mode"], case["exts"], case["kw"]
     try:
         cfg = L.make_config(mode, exts, **kw)
@@ -498,6 +741,7 @@ def produce(case):
     _pristine_registries()          # snapshot before the application exists
     drv = L.SphinxDriver.get()
     _install_docinfo_listener(drv)
+    _install_resolver_marks()
     return (drv.parse if case["stage"] == "parse" else drv.publish)(text, cfg)
 
 
@@ -516,7 +760,7 @@ def run_case(case, want_obs=False):
             return ([], ["harness-limit:doctree-pickle"]) if want_obs else []
         fails = [_exception_failure(exc, case["stage"])]
         return (fails, obs) if want_obs else fails
-    fails = check_tree(doc, case["stage"], warn)
+    fails = check_tree(doc, case["stage"], warn, history=lambda: trace_ids(case))
     if want_obs:
         try:
             obs = observations(doc)
@@ -996,6 +1240,15 @@ FIXED_WITNESSES = (
     # links
     + _w("[x](#nope)\n")
     + _w("# a\n\n[x](#a) [](#a) <project:#a> [x](other.md) [x](other.md#frag) [](#missing)\n")
+    # id_link path (`[text](#name)` -> ResolveAnchorIds writes the refid): explicit targets whose NAME differs from
+    # the ID docutils derives from it, on a block target, an attribute id, a definition term, and heading slugs
+    # that differ from the section ids; a wrong refid shows as refid:dangling:reference:id_link:never-existed
+    + _w("(My Target)=\n\n# Some Heading\n\n[x](#my%20target) [](#my%20target) <project:#my%20target> "
+         "[z](#some-heading)\n\n[i]{#X_y} [k](#x_y)\n\n(t 2)=\nTerm Y\n: def\n\n[](#t%202)\n")
+    + _w("# A.b c\n\n## A.b c\n\n[z](#ab-c) [](#ab-c-1) <project:#ab-c>\n", heading_anchors=2)
+    # docutils Contents copies a section title into the table of contents together with an inline that carries an
+    # id (only MyST's attrs_inline puts ids on inlines)
+    + _w("```{contents}\n```\n\n# a\n\n## [x]{#l} b\n")
     # headings in containers / jumping levels
     + _w("# a\n\n### c\n\n## b\n\n> # q\n\n- ## r\n")
     # found by the generator on the unchanged tree (one minimal witness per signature, so that every run
@@ -1023,6 +1276,13 @@ FIXED_WITNESSES = (
     + _w("(a)=\n```{contents}\n```\n\n[x](#a)\n")
     # id on an anchor link that Sphinx resolves to an equation: the id disappears with the replaced node
     + _w("[](#1){#1} [^1]\n\n> $$a$$ (1)\n", backends=("sphinx",))
+    # (since 37bd485 that link resolves to itself; the cause needs a link that a Sphinx domain resolves with a
+    # content node of its own: the math domain's "(1)")
+    + _w("[t](#l){#k} [u](#k)\n\n$$a$$ (l)\n", backends=("sphinx",))
+    + _w("[t](#l){#k} [^k]\n\n$$a$$ (l)\n\n[^k]: x\n", backends=("sphinx",))
+    # an id on an anchor link that nothing resolves stays in the tree (ResolveAnchorIds moves ids/names to the
+    # pending_xref's inner node, MystReferenceResolver keeps that node)
+    + _w("[t](#nope){#k} [u](#k)\n")
 )
 
 
